@@ -1,10 +1,32 @@
 (* C01 runs the shared stream runner (kinds 0-3, 10-12) and, for the raw-JSON / file-based / compressor framers
-   (kinds 4-8), the runner of Run/C06.v *)
-From EN Require Import Lib.Bytes Lib.Sx.
+   (kinds 4-8), the runner of Run/C06.v.
+   kind 30: StapledPacketSerializer.  input = L [A 30; A cls; A sent_cap; A recv_cap; inner; B probe] where [inner] is a
+   receive case (kinds 0-3) for the RECEIVED serializer and [probe] a payload sent through the SENT serializer
+   (an AutoSeparated serializer with separator LF when sent_cap >= 1).
+   output = L [A class_rank; receive result or A (-1) when the protocol refuses the serializer for that path;
+               chunks produced for the probe or A (-1)] *)
+From Coq Require Import ZArith List Bool.
+From EN Require Import Lib.Bytes Lib.Sx Frame.Serialize Frame.Stapled Gen.ParamsC01.
 From EN Require Run.Stream Run.C06.
+Import ListNotations.
+
+Definition buffered_kind (k : Z) : bool := ((k =? 1) || (k =? 3) || (k =? 12))%Z.
+
+Definition run_stapled (cls s r : Z) (inner : sx) (probe : bytes) : sx :=
+  let rank := stapled_class cls s r in
+  match inner with
+  | L (A k :: _) =>
+      L [A rank;
+         (if ((if buffered_kind k then 2 else 1) <=? rank)%Z then Run.Stream.run inner else A (-1));
+         (if (1 <=? rank)%Z
+          then match autosep_iser true [10%N] probe with Some l => L (map B l) | None => A (-2) end
+          else A (-1))]
+  | _ => bad_input
+  end.
 
 Definition run (i : sx) : sx :=
   match i with
+  | L [A 30%Z; A cls; A s; A r; inner; B probe] => run_stapled cls s r inner probe
   | L (A k :: _) =>
       if (Z.leb 4 k && Z.leb k 8)%bool then Run.C06.run i else Run.Stream.run i
   | _ => bad_input
